@@ -181,8 +181,8 @@ class Pending(InstructionGenerator):
 class BenignQueue(InstructionGenerator):
     """C18 workload: departures of charging vehicles and abandonment of the queue, nothing invalid."""
 
-    def __init__(self, seed: int, p_leave: float = 0.05, p_abandon: float = 0.02, p_resend: float = 0.0, p_topup: float = 0.0):
-        self.seed, self.p_leave, self.p_abandon, self.p_resend, self.p_topup = seed, p_leave, p_abandon, p_resend, p_topup
+    def __init__(self, seed: int, p_leave: float = 0.05, p_abandon: float = 0.02, p_resend: float = 0.0, p_topup: float = 0.0, p_send: float = 0.0):
+        self.seed, self.p_leave, self.p_abandon, self.p_resend, self.p_topup, self.p_send = seed, p_leave, p_abandon, p_resend, p_topup, p_send
 
     @property
     def name(self) -> str:
@@ -202,6 +202,19 @@ class BenignQueue(InstructionGenerator):
                 # a stateless controller repeating "go and charge there" to a vehicle that is already waiting there
                 # (the built-in off-shift human driver logic does the same every step)
                 out.append(DispatchStationInstruction(v.id, v.vehicle_state.station_id, v.vehicle_state.charger_id))
+            elif n == "Idle" and self.p_send and x < self.p_send and not (env.mechatronics.get(v.mechatronics_id) and env.mechatronics[v.mechatronics_id].is_full(v)):
+                # an operator who sends idle vehicles to a depot plug himself, whatever the plug's on-shift flag says (the
+                # flag only steers the built-in station search)
+                mech = env.mechatronics.get(v.mechatronics_id)
+                cands = [
+                    (st.id, c)
+                    for st in sim.get_stations()
+                    if st.membership.grant_access_to_membership(v.membership)
+                    for c in sorted(st.state)
+                    if mech is not None and mech.valid_charger(st.state[c].charger) and c not in st.on_shift_access_chargers
+                ]
+                if cands:
+                    out.append(DispatchStationInstruction(v.id, cands[0][0], cands[0][1]))
             elif n == "Idle" and x < self.p_topup:
                 # a depot rule "top up whenever you stand around", whatever the state of charge: full vehicles join queues too
                 mech = env.mechatronics.get(v.mechatronics_id)
